@@ -22,6 +22,7 @@ PY_REAL = os.environ.get('LOKI_PYTHON', '/venv/bin/python')
 
 
 _keep = []
+_REPLAY_CACHE = {}
 
 
 def _worker(args):
@@ -216,7 +217,11 @@ def main(argv=None):
                 json.dump(rec, f, indent=1, default=str)
             rr = None
             if o.cex is not None and not (isinstance(o.cex, dict) and 'decode_error' in o.cex):
-                rr = run_replay(prop, rp)
+                # identical decoded inputs - and all instances of one listed known finding - share one native replay
+                ck = ('known', hit['what']) if hit is not None else json.dumps(o.cex, sort_keys=True, default=str)
+                if ck not in _REPLAY_CACHE:
+                    _REPLAY_CACHE[ck] = run_replay(prop, rp)
+                rr = _REPLAY_CACHE[ck]
                 rec['replay'] = rr
                 with open(rp, 'w') as f:
                     json.dump(rec, f, indent=1, default=str)
